@@ -93,6 +93,10 @@ let show_event (e : event) =
   Printf.sprintf "%d:%d:%d:%s" (if op land 0x20 <> 0 then op else st lor op) (int_of_n e.e_key.kidx) (int_of_n e.e_key.kver)
     (match e.e_rc with Some n -> (try string_of_int (int_of_n n) with _ -> "big") | None -> "INVALID")
 
+(* development aid (evaluating candidate fixes of the VM, whose operations then differ from the transcription on
+   purpose): HEAP_DRV_PLAIN=1 switches the operation conformance off and leaves the monitor *)
+let plain_only = (try Sys.getenv "HEAP_DRV_PLAIN" = "1" with Not_found -> false)
+
 let replay_file path =
   let items = load path in
   let n = Array.length items in
@@ -122,6 +126,7 @@ let replay_file path =
      | Ev (e, txt) ->
          let predicted =
            match e.e_op with
+           | EMark _ when plain_only -> None
            | EMark mk ->
                let up = build_up items !i in
                (match int_of_n mk with
